@@ -206,7 +206,19 @@ def shard_lifecycle(repo, col):
                 "the reorder buffer are compressed twice)" % qn,
                 node=enc[0] if enc else None)
     # who may write the minishard's bookkeeping
-    owned = {"masked_bits", "_appended", "_last_chunk_id"}
+    owned = {"masked_bits"}
+    try:
+        appf = repo.func("sharded_file_accessor", "MiniShard.append")
+        for n in walk_local(appf.node):
+            if isinstance(n, (ast.Assign, ast.AugAssign)):
+                tg = n.targets if isinstance(n, ast.Assign) else [n.target]
+                for t in tg:
+                    if isinstance(t, ast.Attribute) and isinstance(
+                            t.value, ast.Name) and t.value.id == "self" \
+                            and t.attr.startswith("_"):
+                        owned.add(t.attr)
+    except AnalysisError:
+        pass
     writers = []
     for fn in m.functions.values():
         if fn.cls is not None and fn.cls.name == "MiniShard":
